@@ -104,7 +104,7 @@ CLAIMS = {
          "global minimiser provided the exact sub-solver returns sub-problem optima (C06_parcons; that premise is property C05). Per run, in "
          "Coq: model assembly = library consensus and flag, one recorded sub-solver call per non-trivial component on exactly the model's "
          "sub-problem, model SCCs = library SCCs as sets, verified no-back-arc test on the library's partition, flag => score = verified "
-         "brute-force optimum (universes <= 6/7).",
+         "brute-force optimum (universes <= 6).",
          "Trusted: Coq kernel + vm_compute; model tied by correspondence; harness (records sub-solver calls by wrapping them); CBC (through PuLP), igraph and the auxiliary heuristics are outside the model and only judged per run.",
          "DESIGN.md section 4, C06"),
  "C07": ("Coq theorems on the model of the ParFront merge loop (strict exchange + transitivity) and of consistent_with (total, iff); model = code by vm_compute correspondence",
@@ -124,7 +124,7 @@ CLAIMS = {
          "optimal feasible point gives a global optimum and the minimum of the program is opt (C05_ilp_optimal, C05_ilp_min_reached); opt is "
          "the minimum over all rankings with ties (lower bound, attained); soundness of the component decomposition. PARTIAL in one respect: "
          "the branch-and-bound of the solver (CBC) is outside the model - 'its answer is optimal for the program it was given' is an "
-         "assumption, tested on every run against the verified brute force (<= 5 elements in the ilp suite, <= 6/7 in the exact suite). Per run, "
+         "assumption, tested on every run against the verified brute force (<= 5 elements in the ilp suite, <= 6 in the exact suite). Per run, "
          "in Coq: captured program = model program row for row, answer integral and feasible for the model rows, model decoder = returned "
          "consensus, objective = reported score = opt, consensus well-formed, flagged optimal, selector (CPLEX absent: free-solver fallback) "
          "and free-solver model. CPLEX itself is not installed: the CPLEX models (optimize on / off, one / all optimal consensuses, the optim1 "
